@@ -205,6 +205,8 @@ def stacks(k, maxfull=3):
                 for w in ("shuffle", "repeat2", "tail"):
                     out.append(('W', w, child))
             out.append(('C', (child,)))
+            if L > 0:
+                out.append(('L', (child,)))  # a balanced concat of ONE part: item k is sample k % len(part)
             out.append(('D', child))  # concat of the SAME object twice (shared part)
         # concats of 2..3 parts
         for parts in (2, 3):
